@@ -13,6 +13,7 @@ When 'cli' is given the command line uses that construction, otherwise a graph f
 import itertools
 import math
 import os
+import zlib
 
 
 # ---------------------------------------------------------------------------------
@@ -44,7 +45,7 @@ def complete(n):
 
 
 def empty(n):
-    return simple(n, [], cli=['empty', n])
+    return simple(n, [], cli=['empty', n] if n > 0 else None)     # the command line refuses 'empty 0': use a graph file there
 
 
 def cycle(n):
@@ -131,7 +132,7 @@ def concrete_argv(entry, directory):
             if 'cli' in g:
                 out += list(g['cli'])
             else:
-                out += write_graph_file(g, directory, '{}_{}'.format(abs(hash(entry['id'])) % 100000, i))
+                out += write_graph_file(g, directory, '{}_{}'.format(zlib.crc32(entry['id'].encode()) % 1000000, i))
         else:
             out.append(str(tok))
     return out
@@ -162,8 +163,13 @@ def _bits(m):
 def _E(family, size, argv, lib, graphs=(), nvars=None, seeded=False, ident=None):
     ident = ident or '-'.join(str(a).replace('@', '') for a in argv)
     if graphs:
-        ident += ':' + ';'.join('{}{}'.format(g['type'][0], len(g['edges'])) + ('' if 'cli' in g else 'e' + ''.join(
-            '{}{}'.format(u, v) for u, v in g['edges'])[:40]) for g in graphs)
+        def tag(g):
+            order = '{}x{}'.format(g['L'], g['R']) if g['type'] == 'bipartite' else str(g['n'])
+            t = '{}{}m{}'.format(g['type'][0], order, len(g['edges']))
+            if 'cli' not in g:
+                t += 'e' + ''.join('{}{}'.format(u, v) for u, v in g['edges'])[:60]
+            return t
+        ident += ':' + ';'.join(tag(g) for g in graphs)
     lib = lib or (None, [], {})
     return {'id': ident, 'family': family, 'size': size, 'argv': list(argv), 'lib': [lib[0], list(lib[1]), dict(lib[2]) if len(lib) > 2 else {}],
             'graphs': list(graphs), 'nvars': nvars, 'seeded': seeded}
@@ -318,10 +324,16 @@ def small_entries(thorough=False):
         nv = a * b * c + a * b * _bits(b) + b * _bits(c)
         out.append(_E('cpls', 'small', ['cpls', a, b, c], ('CPLSFormula', [a, b, c]), nvars=nv))
     # --- random families (seeded by the caller)
-    for (k, n, m) in [(1, 1, 0), (2, 4, 3), (3, 5, 6), (3, 3, 8), (2, 6, 10), (1, 4, 4)]:
+    for (k, n, m) in [(1, 1, 0), (2, 4, 3), (3, 5, 6), (3, 3, 8), (2, 6, 10), (1, 4, 4), (3, 9, 1)]:
         out.append(_E('randkcnf', 'small', ['randkcnf', k, n, m], ('RandomKCNF', [k, n, m]), nvars=n, seeded=True))
         out.append(_E('randkxor', 'small', ['randkxor', k, n, m if m <= 2 * math.comb(n, k) else 2], ('RandomKXOR', [k, n, m if m <= 2 * math.comb(n, k) else 2]), nvars=n, seeded=True))
-    return out
+    seen = set()
+    uniq = []
+    for e in out:
+        if e['id'] not in seen:
+            seen.add(e['id'])
+            uniq.append(e)
+    return uniq
 
 
 def real_entries(thorough=False):
